@@ -23,6 +23,7 @@ let xlbl_name = function
   | XNoConn -> "XNoConn" | XSendExit -> "XSendExit" | XIdleExit -> "XIdleExit" | XWake -> "XWake" | XCore l -> lbl_name l
 
 exception Reject of string * string (* oracle, reason *)
+exception Skip of string (* a schedule the acceptor does not follow: left to the black-box monitor *)
 
 let parse_pairs s = (* "id:pay,id:pay" *)
   if s = "" then [] else
@@ -71,9 +72,12 @@ let class_of spec =
   with Not_found -> "?"
 
 (* the tag of a pool-specific event is "TAG" for store 0 and "TAG@k" for store k *)
-let split_tag t = match String.index_opt t '@' with
+let split_at ch t = match String.index_opt t ch with
   | Some i -> (String.sub t 0 i, ios (String.sub t (i + 1) (String.length t - i - 1)))
   | None -> (t, 0)
+(* ... followed by "#g" for generation g > 0 of the store's pool (CloseAddr drops the pool, the next call creates a new one) *)
+let split_gen t = split_at '#' t
+let split_tag t = split_at '@' (fst (split_gen t))
 
 (* ---------------------------------------------------------------- black-box monitor *)
 let blackbox (s : sc) =
@@ -163,7 +167,7 @@ let whitebox (scid : string) (label : string) (cfg_limit : int) (nh : int) (evl 
   let evs = Array.of_list evl in
   let n_ev = Array.length evs in
   (* look-ahead tables: in which ROUND a caller is built, what a caller returns *)
-  let built_at = Hashtbl.create 64 and ret_kind = Hashtbl.create 64 in
+  let built_at = Hashtbl.create 64 and ret_kind = Hashtbl.create 64 and ret_at = Hashtbl.create 64 in
   (* several connections: one core instance with a lane = (connection, forwarded host) per stream; the connection a request
      is sent on is only decided by getClientAndSend, the acceptor looks it up in the caller's Send event *)
   let conn_of = Hashtbl.create 64 and subp = Hashtbl.create 64 and gspecs = Hashtbl.create 64 in
@@ -181,7 +185,7 @@ let whitebox (scid : string) (label : string) (cfg_limit : int) (nh : int) (evl 
         Hashtbl.replace gspecs (ios c) g;
         (* predicted, not observed: the priority the wrapper gives the request *)
         Hashtbl.replace subp (ios c) (ios h, int_of_nat (gate_priority bg_group group_pri g), a)
-    | "RET" :: c :: kind :: _ -> if not (Hashtbl.mem ret_kind (ios c)) then Hashtbl.replace ret_kind (ios c) kind
+    | "RET" :: c :: kind :: _ -> if not (Hashtbl.mem ret_kind (ios c)) then (Hashtbl.replace ret_kind (ios c) kind; Hashtbl.replace ret_at (ios c) i)
     | _ -> ()) evs;
   (* calls that the watchdog had to give up on: their final "ctx" return is the harness's own cancellation *)
   let hung = Hashtbl.create 8 in
@@ -353,7 +357,19 @@ let whitebox (scid : string) (label : string) (cfg_limit : int) (nh : int) (evl 
             raise (Reject ("fail_pending", Printf.sprintf "after re-creating stream %d the table holds ids [%s] of that host, the model [%s]" h
                              (ids_str real) (ids_str (model_ids_of_host h))))
         end
-    | "CLOSE" :: _ -> close_pending := true; closed_seen := true
+    | "CLOSE" :: _ ->
+        (* an asynchronous request that a later round of this pool builds was enqueued around the Close: if its call
+           returned only after that round it was in the channel before the Close (XSubmit now); if the call had already
+           been failed by the sender's re-check and the send loop, not yet gone, builds the entry all the same (harmless:
+           the callback runs once), the model has retired the entry -- that schedule is left to the black-box monitor *)
+        Hashtbl.iter (fun c (_, _, a) ->
+          if a then match Hashtbl.find_opt built_at c, e_st (entry c) with
+            | Some at, Fresh when at > !cur ->
+                (match Hashtbl.find_opt ret_at c with
+                 | Some r when r < at -> raise (Skip (Printf.sprintf "async caller %d failed by the sender's re-check and still built by the send loop" c))
+                 | _ -> ensure c)
+            | _ -> ()) subp;
+        close_pending := true; closed_seen := true
     | "INJ" :: "sendpanic" :: _ -> capply "ids_fresh" Restart
     | "RET" :: c :: kind :: p :: _ ->
         let c = ios c in
@@ -441,7 +457,8 @@ let whitebox (scid : string) (label : string) (cfg_limit : int) (nh : int) (evl 
      Array.iteri (fun i e -> cur := i; run_event e) evs;
      bump "traces_accepted" 1; bump "model_steps" !steps;
      Printf.printf "ACCEPT\t%s%s\t%d\n" scid label !steps; 0
-   with Reject (oracle, reason) ->
+   with Skip why -> bump "traces_skipped" 1; Printf.printf "SKIP\t%s%s\t%s\n" scid label why; 0
+      | Reject (oracle, reason) ->
      Printf.printf "REJECT\t%s\t%s\t%d\t%s%s\t%s\n" scid oracle !cur reason label (String.concat " " evs.(!cur)); 1)
 
 (* the events of store k: its own wire/table events (tag suffix stripped), the calls addressed to it, global events *)
@@ -455,10 +472,60 @@ let events_of_pool (s : sc) k =
     | t :: rest ->
         let (tag, p) = split_tag t in
         (match tag with
-         | "NS" | "NSF" | "SB" | "SE" | "RV" | "RE" | "RD" | "ROUND" | "CRES" | "END" -> if p = k then Some (tag :: rest) else None
+         | "NS" | "NSF" | "SB" | "SE" | "RV" | "RE" | "RD" | "ROUND" | "CRES" | "END" | "GENUNK" ->
+             let g = snd (split_gen t) in
+             if p = k then Some ((if g > 0 then Printf.sprintf "%s#%d" tag g else tag) :: rest) else None
+         | "CLOSE" when rest <> ["client"] -> if p = k then Some (tag :: rest) else None
          | "SUB" | "RET" | "HANG" | "PANIC" ->
              (match rest with c :: _ when (try Hashtbl.find pool_of c with Not_found -> 0) = k -> Some e | _ -> None)
          | _ -> Some e)) s.evs
+
+(* Pool generations of one store (Pool.v: a product of independent core instances, a call lives in exactly one of them).
+   The events of generation g: the wire / builder / table events tagged #g, the calls that were enqueued in that
+   generation (they show up in its builder dumps or Send events; a call that never got that far and returned the closed
+   error belongs to the generation closed last before it returned; other calls without any trace in a pool are left to the
+   black-box monitor), the CloseAddr that closed generation g, Close of the whole client. *)
+let is_pool_tag = function "NS" | "NSF" | "SB" | "SE" | "RV" | "RE" | "RD" | "ROUND" | "CRES" | "END" -> true | _ -> false
+let generations (evl : string list list) =
+  let evs = Array.of_list evl in
+  let ngen = ref 1 in
+  let gen_of_caller = Hashtbl.create 64 and closed_at = Hashtbl.create 4 in
+  let place g c = if c >= 0 && not (Hashtbl.mem gen_of_caller c) then Hashtbl.replace gen_of_caller c g in
+  Array.iteri (fun i e -> match e with
+    | [] -> ()
+    | t :: rest ->
+        let (tag, g) = split_gen t in
+        if is_pool_tag tag then ngen := max !ngen (g + 1);
+        (match tag, rest with
+         | "ROUND", _ :: b :: l :: _ ->
+             List.iter (fun (_, c, _, _) -> place g c) (parse_built (after_eq b));
+             List.iter (fun (c, _, _) -> place g c) (parse_triples (after_eq l))
+         | "SB", _ :: _ :: _ :: pairs :: _ -> List.iter (fun (_, c) -> place g c) (parse_pairs pairs)
+         | "CLOSE", "addr" :: x :: _ -> ngen := max !ngen (ios x + 1); if not (Hashtbl.mem closed_at (ios x)) then Hashtbl.replace closed_at (ios x) i
+         | "CLOSE", "client" :: _ -> for x = 0 to !ngen - 1 do if not (Hashtbl.mem closed_at x) then Hashtbl.replace closed_at x i done
+         | _ -> ())) evs;
+  (* calls without a trace in any pool *)
+  Array.iteri (fun i e -> match e with
+    | "RET" :: c :: "closed" :: _ when not (Hashtbl.mem gen_of_caller (ios c)) ->
+        let best = Hashtbl.fold (fun g at b -> if at < i && (match b with Some (_, a) -> at > a | None -> true) then Some (g, at) else b) closed_at None in
+        (match best with Some (g, _) -> Hashtbl.replace gen_of_caller (ios c) g | None -> ())
+    | _ -> ()) evs;
+  let unplaced = ref 0 in
+  let sub_seen = Hashtbl.create 64 in
+  Array.iter (fun e -> match e with
+    | "SUB" :: c :: _ -> if not (Hashtbl.mem gen_of_caller (ios c)) && not (Hashtbl.mem sub_seen c) then (Hashtbl.replace sub_seen c true; incr unplaced)
+    | _ -> ()) evs;
+  bump "calls_without_pool_trace" !unplaced;
+  List.init !ngen (fun g ->
+    List.filter_map (fun e -> match e with
+      | [] -> None
+      | t :: rest ->
+          let (tag, eg) = split_gen t in
+          if is_pool_tag tag then (if eg = g then Some (tag :: rest) else None)
+          else (match tag, rest with
+            | ("SUB" | "RET" | "HANG" | "PANIC"), c :: _ -> if Hashtbl.find_opt gen_of_caller (ios c) = Some g then Some e else None
+            | "CLOSE", "addr" :: x :: _ -> if ios x = g then Some ["CLOSE"; "addr"] else None
+            | _ -> Some e)) evl)
 
 (* ---------------------------------------------------------------- differential on the real async.RunLoop *)
 let ints s = List.filter_map (fun x -> if x = "" then None else Some (ios x)) (String.split_on_char ',' s)
@@ -499,14 +566,24 @@ let () =
     bump "scenarios" 1; bump ("class:" ^ cls) 1; bump "events" (List.length s.evs);
     let bf = blackbox s in
     Printf.printf "BLACKBOX\t%s\t%d\n" s.id bf;
-    let newpool = List.exists (fun e -> match e with "CLOSE" :: "addr" :: _ | "INJ" :: "idle" :: _ -> true | _ -> false) s.evs in
-    (* the acceptor replays one pool per store, with one lane per (connection, forwarded host); a pool re-created after
-       CloseAddr / idle recycling, the non-batch path, the collapse wrapper and the async-calls-racing-with-Close class (an entry failed by the sender's re-check may still be
+    let newpool = List.exists (fun e -> match e with "INJ" :: "idle" :: _ | "GENUNK" :: _ -> true
+                                                 | t :: "addr" :: x :: _ when fst (split_tag t) = "CLOSE" -> ios x < 0
+                                                 | t :: _ when fst (split_tag t) = "GENUNK" -> true | _ -> false) s.evs in
+    let closeaddr = List.exists (fun e -> match e with t :: "addr" :: _ when fst (split_tag t) = "CLOSE" -> true | _ -> false) s.evs in
+    (* the acceptor replays one pool per store and generation, with one lane per (connection, forwarded host); a pool re-created by
+       idle recycling, the non-batch path, the collapse wrapper and the async-calls-racing-with-Close class (an entry failed by the sender's re-check may still be
        sent by a send loop that has not exited yet) are black-box only *)
     if not newpool && not (nobatch_of s.spec) && cls <> "asyncclose" && cls <> "collapse" && cls <> "idle" then begin
       let np = pools_of s.spec in
       for k = 0 to np - 1 do
-        ignore (whitebox s.id (if np > 1 then Printf.sprintf "@%d" k else "") (spec_int "limit" s.spec 0) (max 1 (spec_int "nhosts" s.spec 1)) (if np > 1 then events_of_pool s k else s.evs))
+        let lbl = if np > 1 then Printf.sprintf "@%d" k else "" in
+        let evk = if np > 1 then events_of_pool s k else s.evs in
+        let run lbl evs = ignore (whitebox s.id lbl (spec_int "limit" s.spec 0) (max 1 (spec_int "nhosts" s.spec 1)) evs) in
+        if closeaddr then begin
+          (* one core instance per generation of the pool *)
+          bump "scenarios_with_pool_generations" 1;
+          List.iteri (fun g evs -> bump "pool_generations_replayed" 1; run (Printf.sprintf "%s#%d" lbl g) evs) (generations evk)
+        end else run lbl evk
       done
     end else bump "blackbox_only" 1;
     let kinds = String.concat "" (List.map (fun e -> match e with
